@@ -389,10 +389,9 @@ class ExprGen(object):
 
     # -- mostly well-typed expressions (C03: values rather than TypeErrors)
     def int_name(self):
-        r = self.rng.random()
-        if self.bound and r < 0.4:
+        if self.bound and self.rng.random() < 0.4:
             return ast.Name(self.rng.choice(self.bound), ast.Load())
-        if r < 0.4 + self.p_undef:
+        if self.rng.random() < self.p_undef:
             return ast.Name(self.rng.choice(NAMES_UNDEF), ast.Load())
         return ast.Name(self.rng.choice(['a', 'b', 'c', 'x', 'y', 'n']), ast.Load())
 
@@ -701,6 +700,187 @@ class StmtGen(object):
         if k == 4 and hasattr(ast, 'TryStar'):
             return ast.TryStar([ast.Pass()], [ast.ExceptHandler(ast.Name('ValueError', ast.Load()), None, [ast.Pass()])], [], [])
         return ast.Expr(ast.YieldFrom(self.e()))
+
+
+# --------------------------------------------------------------------------
+# closed, terminating programs for the execution-effect oracle (C13): every loop is bounded, every name
+# that is read is defined (mostly), results land in module-level variables
+
+class ProgGen(object):
+    """random small programs over the context data names a b c n (ints), items (list), d (dict), obj"""
+
+    def __init__(self, rng):
+        self.rng = rng
+        self.eg = ExprGen(rng, unsupported=0.0, yield_=False, undefined=0.0, maxdepth=2)
+        self.counter = 0
+        self.infunc = 0
+
+    def fresh(self, prefix):
+        self.counter += 1
+        return '%s%d' % (prefix, self.counter)
+
+    @staticmethod
+    def values(bound):
+        return [x for x in bound if not (x.startswith('fn') or x.startswith('K') or x in ('math', 'operator', 'self'))]
+
+    def e(self, bound):
+        self.eg.bound = self.values(bound)
+        self.eg.maxdepth = self.rng.choice([1, 2, 2, 3])
+        return self.eg.int_expr(0)
+
+    def cond(self, bound):
+        self.eg.bound = self.values(bound)
+        return self.eg.cond(1)
+
+    def name(self, id_, store=False):
+        return ast.Name(id_, ast.Store() if store else ast.Load())
+
+    def block(self, depth, scope, n=None, own=False):
+        """scope: names certainly assigned so far (in textual order); a nested block works on a copy, so a
+        name assigned only under a condition is not read later"""
+        if not own:
+            scope = list(scope)
+        out = []
+        for _ in range(n or self.rng.choice([1, 2, 2, 3])):
+            out.extend(self.stmt(depth, scope))
+        return out
+
+    def target(self, scope):
+        """an assignment target: inside a function mostly a fresh local or one of the function's own locals,
+        sometimes a name that is also read as a context variable (then Python makes it local to the whole
+        function, also before the assignment and in nested functions)"""
+        if self.infunc:
+            if self.rng.random() < 0.25:
+                return self.rng.choice(['t', 'u', 'a', 'b', 'n', 'acc'])
+            mine = [x for x in scope if x.startswith('loc%d_' % self.infunc) and '_c' not in x]
+            if mine and self.rng.random() < 0.4:
+                return self.rng.choice(mine)
+            return self.fresh('loc%d_' % self.infunc)
+        return self.rng.choice(['t', 'u', 'v', 'a', 'b', 'n', 'acc'])
+
+    def stmt(self, depth, scope):
+        rng = self.rng
+        r = rng.random()
+        simple = depth >= 2
+        # inside a function only names that are never read as context variables are assigned, so that no
+        # name is read before it is (textually) bound in the same function: the hypothesis of the known
+        # finding C13-local-before-assignment
+        if r < 0.30 or (simple and r < 0.7):
+            val = self.e(scope)
+            nm = self.target(scope)
+            scope.append(nm)
+            return [ast.Assign([self.name(nm, True)], val)]
+        if r < 0.38:
+            mine = [x for x in scope if x.startswith('loc%d_' % self.infunc) and '_c' not in x] if self.infunc else \
+                [x for x in scope if x in ('t', 'u', 'v', 'a', 'b', 'n', 'acc')] + ['a', 'b', 'n']
+            if mine:
+                nm = rng.choice(mine)
+                return [ast.AugAssign(self.name(nm, True), rng.choice([ast.Add, ast.Sub, ast.Mult])(), self.e(scope))]
+            return [ast.Pass()]
+        if r < 0.43:
+            k = rng.choice(['k', 'a', 'x'])
+            tgt = ast.Subscript(self.name('d'), ast.Constant(k), ast.Store()) if rng.random() < 0.5 else \
+                ast.Attribute(self.name('obj'), rng.choice(['val', 'a']), ast.Store())
+            return [ast.Assign([tgt], self.e(scope))]
+        if r < 0.47:
+            return [ast.Expr(ast.Call(ast.Attribute(self.name('items'), 'append', ast.Load()), [self.e(scope)], []))]
+        if r < 0.56:
+            body = self.block(depth + 1, scope)
+            orelse = self.block(depth + 1, scope) if rng.random() < 0.5 else []
+            return [ast.If(self.cond(scope), body, orelse)]
+        if r < 0.66:
+            iv = self.fresh('loc%d_' % self.infunc) if self.infunc else rng.choice(['i', 'j'])
+            # (a copy of the list: the body may append to `items`)
+            it = ast.Call(self.name('range'), [ast.Constant(rng.choice([0, 2, 3]))], []) if rng.random() < 0.6 else \
+                ast.Call(self.name('list'), [self.name('items')], [])
+            if rng.random() < 0.2:
+                wv = self.fresh('loc%d_' % self.infunc) if self.infunc else 'w'
+                tgt = ast.Tuple([self.name(iv, True), self.name(wv, True)], ast.Store())
+                it = ast.Call(self.name('enumerate'), [ast.Call(self.name('list'), [self.name('items')], [])], [])
+                inner_scope = scope + [iv, wv]
+            else:
+                tgt = self.name(iv, True)
+                inner_scope = scope + [iv]
+            body = self.block(depth + 1, inner_scope)
+            if rng.random() < 0.15:
+                body.append(ast.If(self.cond(inner_scope), [rng.choice([ast.Break, ast.Continue])()], []))
+            orelse = self.block(depth + 1, scope, 1) if rng.random() < 0.2 else []
+            return [ast.For(tgt, it, body, orelse)]
+        if r < 0.70:
+            cnt = self.fresh('loc%d_c' % self.infunc) if self.infunc else self.fresh('cnt')
+            scope.append(cnt)
+            body = [ast.AugAssign(self.name(cnt, True), ast.Add(), ast.Constant(1))] + self.block(depth + 1, scope)
+            return [ast.Assign([self.name(cnt, True)], ast.Constant(0)),
+                    ast.While(ast.Compare(self.name(cnt), [ast.Lt()], [ast.Constant(rng.choice([1, 2, 3]))]), body, [])]
+        if r < 0.78:
+            body = self.block(depth + 1, scope)
+            if rng.random() < 0.6:
+                body.append(ast.If(self.cond(scope), [ast.Raise(ast.Call(self.name(rng.choice(['ValueError', 'KeyError'])),
+                                                                       [ast.Constant('boom')], []), None)], []))
+            handlers = [ast.ExceptHandler(self.name(rng.choice(['ValueError', 'KeyError', 'ZeroDivisionError', 'Exception'])), None,
+                                          self.block(depth + 1, scope, 1))] if rng.random() < 0.8 else []
+            final = self.block(depth + 1, scope, 1) if (not handlers or rng.random() < 0.4) else []
+            orelse = self.block(depth + 1, scope, 1) if handlers and rng.random() < 0.3 else []
+            return [ast.Try(body, handlers, orelse, final)]
+        if r < 0.92 and depth < 2:
+            return self.funcdef(depth, scope)
+        if r < 0.96 and depth < 1:
+            return self.classdef(depth, scope)
+        if r < 0.97:
+            return [ast.Assert(ast.BoolOp(ast.Or(), [self.cond(scope), ast.Constant(rng.choice([1, 1, 1, 0]))]),
+                               ast.Constant('msg') if rng.random() < 0.5 else None)]
+        if self.infunc:
+            return [ast.Pass()]
+        mod = rng.choice(['math', 'operator'])
+        scope.append(mod)
+        return [ast.Import([ast.alias(mod, None)])]
+
+    def funcdef(self, depth, scope):
+        rng = self.rng
+        fname = self.fresh('fn')
+        pnames = rng.sample(['p', 'q', 'r'], rng.choice([0, 1, 2]))
+        ndef = rng.randrange(0, len(pnames) + 1)
+        kwonly = [ast.arg('kw')] if rng.random() < 0.2 else []
+        args = ast.arguments(posonlyargs=[], args=[ast.arg(x) for x in pnames], vararg=ast.arg('rest') if rng.random() < 0.15 else None,
+                             kwonlyargs=kwonly, kw_defaults=[self.e(scope) for _ in kwonly], kwarg=None,
+                             defaults=[self.e(scope) for _ in range(ndef)])
+        # names visible in the body: parameters, names of the enclosing function scopes assigned *before* the def
+        # (the hypothesis of known finding C13-local-before-assignment), and the function itself
+        inner = list(scope) + pnames + [x.arg for x in kwonly] + ([args.vararg.arg] if args.vararg else [])
+        inner = [x for x in inner if x != 'rest']
+        self.infunc += 1
+        body = self.block(depth + 1, inner, own=True)
+        body.append(ast.Return(self.e(inner)))
+        self.infunc -= 1
+        kw = dict(type_params=[]) if hasattr(ast, 'TypeVar') else {}
+        fd = ast.FunctionDef(fname, args, body, [], None, None, **kw)
+        res = self.fresh('res')
+        call = ast.Call(self.name(fname), [self.e(scope) for _ in range(len(pnames) - rng.randrange(0, ndef + 1))], [])
+        scope.extend([fname, res])
+        return [fd, ast.Assign([self.name(res, True)], call)]
+
+    def classdef(self, depth, scope):
+        rng = self.rng
+        cname = self.fresh('K')
+        attr = ast.Assign([self.name('attr', True)], self.e(scope))
+        inner = list(scope) + ['self', 'p']
+        self.infunc += 1
+        mbody = self.block(depth + 2, inner, 1, own=True) + [ast.Return(ast.BinOp(ast.Attribute(self.name('self'), 'attr', ast.Load()), ast.Add(), self.e(inner)))]
+        self.infunc -= 1
+        kw = dict(type_params=[]) if hasattr(ast, 'TypeVar') else {}
+        meth = ast.FunctionDef('m', ast.arguments(posonlyargs=[], args=[ast.arg('self'), ast.arg('p')], vararg=None, kwonlyargs=[],
+                                                  kw_defaults=[], kwarg=None, defaults=[]), mbody, [], None, None, **kw)
+        cd = ast.ClassDef(cname, [], [], [attr, meth], [], **kw)
+        res = self.fresh('res')
+        call = ast.Call(ast.Attribute(ast.Call(self.name(cname), [], []), 'm', ast.Load()), [self.e(scope)], [])
+        scope.extend([cname, res])
+        return [cd, ast.Assign([self.name(res, True)], call)]
+
+    def program(self):
+        self.counter = 0
+        scope = []
+        body = self.block(0, scope, self.rng.choice([2, 3, 4, 5]), own=True)
+        return ast.Module(body, [])
 
 
 # --------------------------------------------------------------------------
